@@ -76,6 +76,12 @@ LOAD = {
     'anchors_and_aliases': lambda n: ''.join('- &a%d x\n' % i for i in range(n)) + ''.join('- *a%d\n' % i for i in range(n)),
     'pairs_big': lambda n: '!!pairs\n' + ''.join('- k%d: v\n' % (i % 5) for i in range(n)),
     'flow_seq_values_long_keys': lambda n: ''.join('"key %d": [v, {a: b}]\n' % i for i in range(n)),
+    'aliases_to_big_seq': lambda n: '- &b [' + ', '.join('x%d' % i for i in range(n)) + ']\n' + '- *b\n' * n,
+    'aliases_to_big_map': lambda n: 'b: &b\n' + ''.join('  k%d: v\n' % i for i in range(n)) + 'r:\n' + '- *b\n' * n,
+    'aliases_to_nested': lambda n: '- &b\n' + ''.join('  - [a, {k: %d}]\n' % i for i in range(n)) + ''.join('- {x: *b}\n' for i in range(n)),
+    'empty_flow_items': lambda n: '[' + '[], ' * n + '{}]',
+    'empty_quoted_items': lambda n: '[' + '"", ' * n + "'']",
+    'alias_items_one_line': lambda n: '- &a x\n- [' + '*a, ' * n + '*a]',
     'deep_bounded': lambda n: ('- ' * 20 + 'a\n') * n,
     'sets': lambda n: '!!set\n' + ''.join('? a%d\n' % i for i in range(n)),
     'omap': lambda n: '!!omap\n' + ''.join('- k%d: v\n' % i for i in range(n)),
@@ -107,6 +113,9 @@ DUMP = {
     'str_unicode_allowed': (lambda n: (chr(0x4e2d) + ' ') * n, {'allow_unicode': True}),
     'str_multiline_plain': (lambda n: 'a\nb ' * n, {}),
     'shared': (lambda n: (lambda x: [x] * n)([1, 2]), {}),
+    'many_anchors': (lambda n: (lambda xs: xs + xs)([[i] for i in range(n)]), {}),
+    'many_anchors_dicts': (lambda n: (lambda xs: {'a': xs, 'b': list(reversed(xs))})([{'k': i} for i in range(n)]), {}),
+    'many_shared_dates': (lambda n: (lambda ds: ds + ds)([__import__('datetime').date(2000 + i % 900, 1, 1 + i % 28) for i in range(n)]), {}),
     'bytes': (lambda n: b'x' * (n * 10), {}),
     'long_keys': (lambda n: {('k' * 200 + str(i)): i for i in range(max(1, n // 4))}, {}),
     'floats_dates': (lambda n: [1.5, 1e17, float('inf')] * n, {}),
